@@ -1,8 +1,9 @@
 #!/bin/sh
 # usage: tools/confirm_seed_dir.sh <name> <outdir with patch.diff and *_test.go demo files> <package dir relative to repo root> <go test -run pattern>
-# Like confirm_seed.sh, for demos made of several test files that all go into one package directory.
+# Like confirm_seed.sh, for demos made of several test files that all go into one package directory (created when
+# missing). An optional fifth argument gives extra go test flags (e.g. -race).
 export GOFLAGS=-mod=mod GOPROXY=off GOSUMDB=off GOTOOLCHAIN=local
-NAME="$1"; OUTDIR="$2"; PKGDIR="$3"; RUN="$4"
+NAME="$1"; OUTDIR="$2"; PKGDIR="$3"; RUN="$4"; EXTRA="$5"
 WT=/tmp/confirm-$NAME.$$
 git -C /repo worktree add --detach "$WT" HEAD -q || exit 2
 cleanup() { git -C /repo worktree remove --force "$WT" 2>/dev/null; rm -rf "$WT"; }
@@ -15,13 +16,14 @@ if go test -vet=off -count=1 ./... 2>&1 | grep -v "no test files" | grep -qv "^o
   echo "CONFIRM $NAME: existing suite FAILS with the change"; exit 1
 fi
 echo "CONFIRM $NAME: suite passes with the change"
+mkdir -p "$WT/$PKGDIR"
 cp "$OUTDIR"/*_test.go "$WT/$PKGDIR/"
-if go test -vet=off -count=1 -run "$RUN" "./$PKGDIR/" >/tmp/confirm-$NAME.with.log 2>&1; then
+if go test $EXTRA -vet=off -count=1 -run "$RUN" "./$PKGDIR/" >/tmp/confirm-$NAME.with.log 2>&1; then
   echo "CONFIRM $NAME: demo PASSES with the change (expected failure)"; exit 1
 fi
 echo "CONFIRM $NAME: demo fails with the change"
 git apply -R "$OUTDIR/patch.diff"
-if ! go test -vet=off -count=1 -run "$RUN" "./$PKGDIR/" >/tmp/confirm-$NAME.without.log 2>&1; then
+if ! go test $EXTRA -vet=off -count=1 -run "$RUN" "./$PKGDIR/" >/tmp/confirm-$NAME.without.log 2>&1; then
   echo "CONFIRM $NAME: demo FAILS without the change"; tail -20 /tmp/confirm-$NAME.without.log; exit 1
 fi
 echo "CONFIRM $NAME: demo passes without the change"
